@@ -12,6 +12,7 @@ package main
 //   wstrings.Safe" is then a set of strings comparable with typePaths.
 
 import (
+	"fmt"
 	"go/token"
 	"go/types"
 	"sort"
@@ -114,10 +115,220 @@ type apWalker struct {
 	events []apEvent
 	stack  map[*ssa.Function]int
 	stop   map[*ssa.Function]bool // do not descend
+
+	// collections built on the way (collect-then-check, explicit work lists): the access paths of the
+	// elements a local slice cell may hold, per cell and binding of its function's parameters
+	content     map[string]map[string]bool
+	contentCond map[string]bool   // some element is added only under a data-dependent condition
+	choice      map[string]string // the element path currently assumed for a read of that cell
+	depth       int
+	grew        bool
 }
 
 func newAPWalker(res *Resolver) *apWalker {
-	return &apWalker{res: res, stack: map[*ssa.Function]int{}, stop: map[*ssa.Function]bool{}}
+	return &apWalker{res: res, stack: map[*ssa.Function]int{}, stop: map[*ssa.Function]bool{},
+		content: map[string]map[string]bool{}, contentCond: map[string]bool{}, choice: map[string]string{}}
+}
+
+// sliceCell: v is (a slice of) the current value of a local slice variable that lives in a cell:
+// the cell (resolved through closure captures).
+func (w *apWalker) sliceCell(v ssa.Value) *ssa.Alloc {
+	for i := 0; i < 4; i++ {
+		switch x := v.(type) {
+		case *ssa.Slice:
+			v = x.X
+			continue
+		case *ssa.ChangeType:
+			v = x.X
+			continue
+		case *ssa.UnOp:
+			if x.Op != token.MUL {
+				return nil
+			}
+			var al *ssa.Alloc
+			switch y := x.X.(type) {
+			case *ssa.Alloc:
+				al = y
+			case *ssa.FreeVar:
+				al, _ = w.freeVarBinding(y).(*ssa.Alloc)
+			}
+			if al == nil {
+				return nil
+			}
+			if _, ok := al.Type().Underlying().(*types.Pointer).Elem().Underlying().(*types.Slice); !ok {
+				return nil
+			}
+			return al
+		}
+		return nil
+	}
+	return nil
+}
+
+func (w *apWalker) cellKey(a *ssa.Alloc, env apEnv) string {
+	k := fmt.Sprintf("%s@%d", a.Parent().String(), a.Pos())
+	for f := a.Parent(); f != nil; f = f.Parent() {
+		for _, p := range f.Params {
+			k += "|" + env[p]
+		}
+	}
+	return k
+}
+
+// resultCell: call is a static call of a repo function whose only return hands out the
+// content of one of its local slice cells: that cell and the environment it was filled under.
+func (w *apWalker) resultCell(call *ssa.Call, env apEnv) (*ssa.Alloc, apEnv) {
+	cal := staticCallee(call)
+	if cal == nil || cal.Blocks == nil || !isRepoFunc(cal) {
+		return nil, nil
+	}
+	rets := returnsOf(cal)
+	if len(rets) != 1 || len(returnValues(rets[0])) != 1 {
+		return nil, nil
+	}
+	al := w.sliceCell(returnValues(rets[0])[0])
+	if al == nil || al.Parent() != cal {
+		return nil, nil
+	}
+	cenv := env.clone()
+	for i, a := range call.Call.Args {
+		if i < len(cal.Params) {
+			if p, ok := w.pathOf(a, env); ok {
+				cenv[cal.Params[i]] = p
+			} else {
+				delete(cenv, cal.Params[i])
+			}
+		}
+	}
+	return al, cenv
+}
+
+// elemRead: v indexes a collection the walker knows the content of: the key of that collection.
+func (w *apWalker) elemRead(coll, idx ssa.Value, env apEnv) (string, bool) {
+	var key string
+	var cell *ssa.Alloc
+	if al := w.sliceCell(coll); al != nil {
+		cell, key = al, w.cellKey(al, env)
+	} else if call, ok := coll.(*ssa.Call); ok {
+		if al, cenv := w.resultCell(call, env); al != nil {
+			cell, key = al, w.cellKey(al, cenv)
+		}
+	}
+	if cell == nil || len(w.content[key]) == 0 {
+		return "", false
+	}
+	// every element is visited: a range loop, or the head/tail of a list that is drained
+	okIdx := isInduction(idx)
+	if n, isK := constInt(idx); isK && n == 0 {
+		okIdx = true
+	}
+	if b, isB := idx.(*ssa.BinOp); isB && b.Op == token.SUB {
+		if n, isK := constInt(b.Y); isK && n == 1 {
+			if ln, isLen := lenArg(b.X); isLen && w.sliceCell(ln) == cell {
+				okIdx = true
+			}
+		}
+	}
+	if !okIdx {
+		return "", false
+	}
+	return key, true
+}
+
+func (w *apWalker) addContent(key, p string, cond bool) {
+	if strings.Count(p, "[*]") > 6 {
+		return
+	}
+	if w.content[key] == nil {
+		w.content[key] = map[string]bool{}
+	}
+	if !w.content[key][p] {
+		w.content[key][p] = true
+		w.grew = true
+	}
+	if cond && !w.contentCond[key] {
+		w.contentCond[key] = true
+		w.grew = true
+	}
+}
+
+// recordContent: the stores of fn into local slice cells: `c = append(c, e…)`, `c = append(c, other…)`, `c = list`.
+func (w *apWalker) recordContent(fn *ssa.Function, env apEnv) {
+	allInstrs(fn, func(in ssa.Instruction) {
+		st, ok := in.(*ssa.Store)
+		if !ok {
+			return
+		}
+		var cell *ssa.Alloc
+		switch a := st.Addr.(type) {
+		case *ssa.Alloc:
+			cell = a
+		case *ssa.FreeVar:
+			cell, _ = w.freeVarBinding(a).(*ssa.Alloc)
+		}
+		if cell == nil {
+			return
+		}
+		if _, isSl := cell.Type().Underlying().(*types.Pointer).Elem().Underlying().(*types.Slice); !isSl {
+			return
+		}
+		key := w.cellKey(cell, env)
+		cond := w.cond || conditionalSite(fn, st)
+		val := st.Val
+		if call, isCall := val.(*ssa.Call); isCall && calleeName(call) == "builtin append" && len(call.Call.Args) == 2 {
+			if sl, isSl := call.Call.Args[1].(*ssa.Slice); isSl {
+				if vs, ok := varargValues(sl); ok {
+					for _, e := range vs {
+						if e == nil {
+							continue
+						}
+						if p, ok := w.pathOf(e, env); ok {
+							w.addContent(key, p, cond)
+						}
+					}
+					return
+				}
+			}
+			// append(c, other...)
+			val = call.Call.Args[1]
+		}
+		if oc := w.sliceCell(val); oc != nil {
+			if oc != cell {
+				for p := range w.content[w.cellKey(oc, env)] {
+					w.addContent(key, p, cond)
+				}
+			}
+			return
+		}
+		if p, ok := w.pathOf(val, env); ok {
+			w.addContent(key, p+"[*]", cond)
+		}
+	})
+}
+
+// contentReads: the collections with known content that fn reads elements of and for which no element is assumed yet.
+func (w *apWalker) contentReads(fn *ssa.Function, env apEnv) []string {
+	seen := map[string]bool{}
+	var keys []string
+	allInstrs(fn, func(in ssa.Instruction) {
+		var coll, idx ssa.Value
+		switch x := in.(type) {
+		case *ssa.IndexAddr:
+			coll, idx = x.X, x.Index
+		case *ssa.Index:
+			coll, idx = x.X, x.Index
+		default:
+			return
+		}
+		if k, ok := w.elemRead(coll, idx, env); ok && !seen[k] {
+			if _, chosen := w.choice[k]; !chosen {
+				seen[k] = true
+				keys = append(keys, k)
+			}
+		}
+	})
+	sort.Strings(keys)
+	return keys
 }
 
 type apEnv map[ssa.Value]string
@@ -166,12 +377,22 @@ func (w *apWalker) pathOfD(v ssa.Value, env apEnv, d int) (string, bool) {
 		}
 		return b + "." + f.Name(), true
 	case *ssa.IndexAddr:
+		if k, ok := w.elemRead(x.X, x.Index, env); ok {
+			if p, ok := w.choice[k]; ok {
+				return p, true
+			}
+		}
 		b, ok := w.pathOfD(x.X, env, d+1)
 		if !ok {
 			return "", false
 		}
 		return b + "[*]", true
 	case *ssa.Index:
+		if k, ok := w.elemRead(x.X, x.Index, env); ok {
+			if p, ok := w.choice[k]; ok {
+				return p, true
+			}
+		}
 		b, ok := w.pathOfD(x.X, env, d+1)
 		if !ok {
 			return "", false
@@ -307,6 +528,65 @@ func (w *apWalker) freeVarBinding(fv *ssa.FreeVar) ssa.Value {
 // walk fn under env, recording calls whose arguments denote access paths and
 // descending into repo callees.
 func (w *apWalker) walk(fn *ssa.Function, env apEnv) {
+	top := w.depth == 0
+	w.depth++
+	defer func() { w.depth-- }()
+	if !top {
+		w.walkChoices(fn, env)
+		return
+	}
+	// collections are filled while walking: repeat until they are complete
+	for iter := 0; iter < 8; iter++ {
+		w.grew = false
+		w.walkChoices(fn, env)
+		if !w.grew {
+			break
+		}
+	}
+}
+
+// walkChoices: walk fn once for every assumption about which element a read of a known collection yields.
+func (w *apWalker) walkChoices(fn *ssa.Function, env apEnv) {
+	if fn == nil || fn.Blocks == nil || w.stack[fn] >= unrollK {
+		return
+	}
+	w.recordContent(fn, env)
+	keys := w.contentReads(fn, env)
+	total := 1
+	for _, k := range keys {
+		total *= len(w.content[k])
+	}
+	if len(keys) == 0 || total > 64 {
+		w.walkOnce(fn, env)
+		return
+	}
+	var rec func(i int)
+	rec = func(i int) {
+		if i == len(keys) {
+			w.walkOnce(fn, env)
+			return
+		}
+		k := keys[i]
+		var ps []string
+		for p := range w.content[k] {
+			ps = append(ps, p)
+		}
+		sort.Strings(ps)
+		for _, p := range ps {
+			w.choice[k] = p
+			saved := w.cond
+			if w.contentCond[k] {
+				w.cond = true // not every candidate was collected
+			}
+			rec(i + 1)
+			w.cond = saved
+		}
+		delete(w.choice, k)
+	}
+	rec(0)
+}
+
+func (w *apWalker) walkOnce(fn *ssa.Function, env apEnv) {
 	if fn == nil || fn.Blocks == nil || w.stack[fn] >= unrollK {
 		return
 	}
@@ -421,6 +701,17 @@ func allowedGuard(cond ssa.Value) bool {
 		// err != nil / err == nil on an error cell or value
 		if (x.Op == token.NEQ || x.Op == token.EQL) && isNilConst(x.Y) && isErrorType(x.X.Type()) {
 			return true
+		}
+		// `for len(todo) > 0`: a local work list is drained
+		if n, isK := constInt(x.Y); isK && n == 0 && (x.Op == token.GTR || x.Op == token.NEQ) {
+			if ln, isLen := lenArg(x.X); isLen {
+				if u, ok := ln.(*ssa.UnOp); ok && u.Op == token.MUL {
+					switch u.X.(type) {
+					case *ssa.Alloc, *ssa.FreeVar:
+						return true
+					}
+				}
+			}
 		}
 	case *ssa.Extract:
 		if _, ok := x.Tuple.(*ssa.Next); ok && x.Index == 0 {
